@@ -19,11 +19,10 @@ package hashing
 //@   ensures [iff] (err == nil) == supportedCode(multihashCode)
 //@   ensures [table] err == nil ==> h == hashFor(multihashCode)
 
-// GetHash wraps crypto.Hash.New / Write / Sum (stateful hash.Hash objects are not
-// modelled): its contract is assumed; the thorough tier spot-checks it.
+// GetHash: a new hash object of the requested algorithm, the data written once, the digest read
+// (hash objects carry ghost state: which algorithm, what was written -- see externals.spec)
 //@ func GetHash(hash, data) (ret, err)
 //@   pure
-//@   trusted "GetHash returns hash.New().Sum over data; available iff the hash is linked in"
 //@   ensures [iff] (err == nil) == digestOK(hash)
 //@   ensures [value] err == nil ==> string(ret) == digest(hash, string(data))
 
